@@ -231,4 +231,12 @@ var checks = map[string]*check{
 		Assumptions: []string{"ambient socket directory is an existing directory (what a host that is itself a plugin would carry)", "presence of socket dir/group is required when configured; their absence when not configured is not demanded (the statement does not)"},
 		Parts:       []part{{Name: "environment", Kind: "enum", Bin: "e3.test", Test: "TestC17"}},
 	},
+	"C15": {
+		Title: "Reattach reaches the same live plugin; test mode never kills the server",
+		Level: "model_checking",
+		Rule: "explicit-state breadth-first search over reattach histories with a reference state machine <process alive, stored value, number of attached clients>: events start, reattach from client j, write / read the plugin's one-cell store through client j, Kill client j, reattach / read after death; depth <= 4 with <= 2 clients (quick), depth <= 5 with <= 3 clients (thorough), x {net/rpc, gRPC}; " +
+			"every path of the search tree is replayed from scratch against a real plugin.Serve child and real Clients in a fresh host process (every reference transition is validated against the implementation); plus fixed test-mode histories (in-process Serve with ServeTestConfig); non-trivial = histories with more than the start event",
+		Assumptions: []string{"states are canonical because the reference state is exactly what plugin and clients can observe (value, liveness, client count)", "no schedule control over real processes; the pid watcher polls once a second, so 'process gone' is awaited for up to 10 s"},
+		Parts:       []part{{Name: "histories", Kind: "enum", Bin: "e3.test", Test: "TestC15"}},
+	},
 }
